@@ -254,7 +254,20 @@ func (f *uconFactory) Build(parent *types.Block, spec BlockSpec, tag []byte) *ty
 	return b
 }
 
-func (f *uconFactory) InvalidKinds() []string { return []string{"ucon-few-votes", "ucon-foreign-seal"} }
+var uconInvalidKinds = []string{"ucon-few-votes", "ucon-foreign-seal", "ucon-voted-bloom", "ucon-voted-gas-used", "ucon-voted-tx-root"}
+
+func (f *uconFactory) InvalidKinds() []string { return uconInvalidKinds }
+
+// Redress gives a block whose header was edited after dressing (a child re-parented onto an invalid
+// block) a genuine proposer credential, votes and seal again: consensus-wise it is a properly voted block.
+func (f *uconFactory) Redress(parent, blk *types.Block) *types.Block {
+	if _, ok := f.built[parent.Hash()]; !ok {
+		f.built[parent.Hash()] = parent
+	}
+	b := f.dress(parent, blk, -1, -1, nil)
+	f.built[b.Hash()] = b
+	return b
+}
 
 // MakeInvalid re-dresses a valid block's body with too few votes / a seal by another key.
 func (f *uconFactory) MakeInvalid(base *types.Block, kind string) *types.Block {
@@ -264,6 +277,21 @@ func (f *uconFactory) MakeInvalid(base *types.Block, kind string) *types.Block {
 	}
 	// undo the dressing that does not matter for re-dressing (dress overwrites every ucon field)
 	switch kind {
+	case "ucon-voted-bloom", "ucon-voted-gas-used", "ucon-voted-tx-root":
+		// a block that only execution can tell from a valid one (state roots are those of the valid twin),
+		// proposed, voted by a quorum and sealed like any other: what a node must reject on its own
+		h := base.Header()
+		switch kind {
+		case "ucon-voted-bloom":
+			h.Bloom[3] ^= 0x04
+		case "ucon-voted-gas-used":
+			h.GasUsed++
+		default:
+			h.TxHash[0] ^= 0xff
+		}
+		b := f.dress(parent, types.NewBlockWithHeader(h).WithBody(base.Body()), -1, -1, nil)
+		f.built[b.Hash()] = b
+		return b
 	case "ucon-few-votes":
 		// (votes and seal are not part of the block hash: the suffix gives the invalid variant a hash of its own)
 		return f.dress(parent, base, 1, -1, []byte{0xee, 1})
